@@ -311,6 +311,50 @@ pub fn gen_anm(rng: &mut Rng, game: Game) -> GenSource {
     GenSource { format: Format::Anm, game, text, maps: vec![] }
 }
 
+/// Scripts that spell INTRINSIC instructions (assignments, operators, unary functions - not jumps) as raw
+/// `ins_N(..)` calls with arbitrary operands: immediates where the game would use a register, registers of
+/// either type, literal / literal operand pairs.  The compiler writes them as they stand; the decompiler
+/// has to turn them into sugar only where recompiling the sugar gives the same instruction back.
+pub fn gen_raw_intrinsics(rng: &mut Rng) -> GenSource {
+    let anm = rng.chance(1, 2);
+    let (game, lang) = if anm { (*rng.pick(GAMES_ANM), LanguageKey::Anm) } else { (*rng.pick(GAMES_ECL), LanguageKey::Ecl) };
+    let sigs = signatures(game, lang);
+    let intr = intrinsic_opcodes(game, lang);
+    let style = ArgStyle { boundary: true, allow_strings: false };
+    let (ints, floats): (Vec<i32>, Vec<i32>) = if !anm && game == Game::Th06 { ((1..=4).map(|k| -10000 - k).collect(), (5..=8).map(|k| -10000 - k).collect()) }
+        else { ((0..4).map(|k| 10000 + k).collect(), (4..8).map(|k| 10000 + k).collect()) };
+    // two files out of three are "clean": every register-capable operand is a register (no operand set the compiler
+    // could fold), so that the known folding finding does not taint the whole stream
+    let clean = !rng.chance(1, 3);
+    let mut body = String::new();
+    for _ in 0..2 + rng.below(6) {
+        if rng.chance(1, 3) { if let Some(c) = gen_call(rng, &sigs, &intr, &style) { body.push_str(&format!("    {c}\n")); } continue; }
+        if rng.chance(1, 6) { body.push_str(&format!("+{}:\n", rng.pick(&[1, 10, 60]))); }
+        let cands: Vec<&(i32, String)> = sigs.iter().filter(|(op, sig)| intr.contains(op) && !parse_sig(sig).iter().any(|p| matches!(p.ch, 'o' | 't' | 'z' | 'm' | 'p'))).collect();
+        if cands.is_empty() { continue; }
+        let (op, sig) = *rng.pick(&cands);
+        let mut args = vec![];
+        for p in parse_sig(sig).iter() {
+            match p.ch {
+                '_' | '-' => {},
+                'S' | 's' | 'U' | 'u' | 'b' | 'c' | 'n' | 'N' | 'E' if !p.attrs.contains("imm") && p.ch == 'S' && (clean || rng.chance(1, 2)) =>
+                    { let pool = if rng.chance(1, 6) { &floats } else { &ints }; let r = *rng.pick(pool); args.push(format!("{}REG[{r}]", if rng.chance(1, 5) { "%" } else { "$" })) },
+                'f' if !p.attrs.contains("imm") && (clean || rng.chance(1, 2)) =>
+                    { let pool = if rng.chance(1, 6) { &ints } else { &floats }; let r = *rng.pick(pool); args.push(format!("{}REG[{r}]", if rng.chance(1, 5) { "$" } else { "%" })) },
+                _ => match gen_arg(rng, p, &style) { Ok(Some(a)) => args.push(a), _ => {} },
+            }
+        }
+        body.push_str(&format!("    ins_{op}({});\n", args.join(", ")));
+    }
+    let text = if anm {
+        let mut next_id = 0u32;
+        format!("{}script script0 {{\n{body}}}\n", anm_entry_text(rng, game, 0, 1, 0, true, &mut next_id))
+    } else {
+        format!("script timeline0 {{\n}}\n\nvoid sub0() {{\n{body}}}\n")
+    };
+    GenSource { format: if anm { Format::Anm } else { Format::Ecl }, game, text, maps: if anm { vec![] } else { vec![ECL_DIFFICULTY_MAP.to_string()] } }
+}
+
 /// the `!difficulty_flags` section of the repository's own map/th06.eclm
 pub const ECL_DIFFICULTY_MAP: &str = "!eclmap\n!difficulty_flags\n0 E-\n1 N-\n2 H-\n3 L-\n4 4-\n5 5-\n6 6-\n7 7-\n";
 
